@@ -204,6 +204,7 @@ package regattaserver
 //@ func (*SnapshotServer).Stream
 //@   requires s != nil && s.Tables != nil && req != nil && srv != nil
 //@   before snapshot.(*snapshotFile).Write assert [C07.final] cmdKind(p) == 2 && hasLI(p) && liVal(p) == resp.Index
+//@   before bufio.NewReaderSize assert [C07.stream.rewound+C05+C18] typeIs(rd, *os.File) && asType(rd, *os.File) == sf.File && sf.w.flushed && sf.File.rest == sf.File.whole
 //@   modifies nothing
 
 // ---------------------------------------------------------------- token authentication (C17)
@@ -350,3 +351,121 @@ package regattaserver
 //@ func NewForwardingKVServer
 //@   ensures [C11.forward.wiring] result != nil && fresh(result) && result.KVServer.Storage == storage && result.client == client && typeIs(result.q, *storage.IndexNotificationQueue) && asType(result.q, *storage.IndexNotificationQueue) == q
 //@   modifies nothing
+
+// ---------------------------------------------------------------- maintenance: backup / restore / reset (C07, C16)
+
+// Backup: the table named in the request is captured into a temporary file, the file is flushed and
+// synced, REWOUND, and only then shipped. Restore: the first message names the table, every later
+// chunk goes into a temporary file, which is flushed, synced, REWOUND and handed to the table service
+// under exactly that name. Reset: resets the named table (or every catalogued table).
+//@ import bufio "bufio"
+//@ iface regattapb.Maintenance_BackupServer.Context
+//@   assumed
+//@   ensures result != nil
+//@   modifies nothing
+//@ iface regattaserver.TableService.Restore
+//@   assumed
+//@   params ts, name, reader
+//@   modifies nothing
+//@ iface regattaserver.TableService.GetTables
+//@   assumed
+//@   modifies nothing
+//@ iface regattapb.Maintenance_RestoreServer.Recv
+//@   assumed
+//@   results m, err
+//@   ensures err == nil ==> m != nil
+//@   modifies nothing
+//@ iface regattapb.Maintenance_RestoreServer.SendAndClose
+//@   assumed
+//@   modifies nothing
+//@ func regattapb.(*RestoreMessage).GetInfo
+//@   assumed
+//@   modifies nothing
+//@ func (*BackupServer).Backup$1
+//@   requires *sf != nil
+//@   modifies nothing
+//@ func (*BackupServer).Restore$1
+//@   requires *sf != nil
+//@   modifies nothing
+//@ func (*BackupServer).Backup
+//@   maypanic
+//@   requires m != nil && m.Tables != nil && req != nil && srv != nil
+//@   before regattaserver.TableService.GetTable assert [C07.backup.table] name == string(req.Table)
+//@   before table.(*ActiveTable).Snapshot assert [C07.backup.into] typeIs(writer, *snapshot.snapshotFile) && asType(writer, *snapshot.snapshotFile) != nil
+//@   before bufio.NewReaderSize assert [C07.backup.rewound+C18] typeIs(rd, *os.File) && asType(rd, *os.File) == sf.File && sf.w.flushed && sf.File.rest == sf.File.whole
+//@   modifies family(G_any_sdata), family(G_any_slen), family(G_any_nmsg), family(G_any_msg), family(G_any_rest), family(G_any_flushed), family(G_any_busy), family(G_any_nsent), family(G_any_sdataAt), family(G_any_slenAt)
+//@ func (*BackupServer).Restore
+//@   maypanic
+//@   requires m != nil && m.Tables != nil && srv != nil
+//@   before regattaserver.TableService.Restore assert [C07.restore.args+C18] name == string(info.Table) && typeIs(reader, *snapshot.snapshotFile) && asType(reader, *snapshot.snapshotFile) != nil && asType(reader, *snapshot.snapshotFile).w.flushed && asType(reader, *snapshot.snapshotFile).File.rest == asType(reader, *snapshot.snapshotFile).File.whole
+//@   modifies family(G_any_sdata), family(G_any_slen), family(G_any_nmsg), family(G_any_msg), family(G_any_rest), family(G_any_flushed), family(G_any_busy)
+//@ func table.(*ActiveTable).Reset
+//@   assumed
+//@   modifies nothing
+//@ func (*ResetServer).Reset$1
+//@   maypanic
+//@   requires *m != nil && (*m).Tables != nil && *ctx != nil
+//@   modifies nothing
+//@ func (*ResetServer).Reset
+//@   maypanic
+//@   results resp, err
+//@   requires m != nil && m.Tables != nil && req != nil && ctx != nil
+//@   ensures [C16.reset.empty] !req.ResetAll && len(req.Table) == 0 ==> err != nil
+//@   before regattaserver.(*ResetServer).Reset$1 assert [C16.reset.named] !req.ResetAll ==> name == string(req.Table)
+//@   modifies nothing
+//@   loop 0 invariant -1 <= rangeindex && rangeindex < len(tables) && req.ResetAll
+
+// ---------------------------------------------------------------- the tables API (C14, C16)
+
+// Create / Delete: an empty name is refused with InvalidArgument before the table service is asked;
+// otherwise exactly the named table is created / deleted; a follower refuses both with Unimplemented
+// and never reaches the table service. (ghost tcalls: calls that reached the table service)
+//@ import strconv "strconv"
+//@ ghostfield any.tcalls Int
+//@ iface regattaserver.TableService.CreateTable
+//@   assumed
+//@   params ts, name
+//@   ensures ts.tcalls == old(ts.tcalls) + 1
+//@   modifies ts.tcalls
+//@ iface regattaserver.TableService.DeleteTable
+//@   assumed
+//@   params ts, name
+//@   ensures ts.tcalls == old(ts.tcalls) + 1
+//@   modifies ts.tcalls
+//@ func (*TablesServer).Create
+//@   maypanic
+//@   results resp, err
+//@   requires t != nil && t.Tables != nil && req != nil
+//@   ensures [C16.tables.create.empty] len(req.Name) == 0 ==> err != nil && codeOf(err) == cInvalidArgument && t.Tables.tcalls == old(t.Tables.tcalls)
+//@   before regattaserver.TableService.CreateTable assert [C14.api.create] name == req.Name
+//@   ensures [C16.tables.create.once] t.Tables.tcalls <= old(t.Tables.tcalls) + 1
+//@   modifies t.Tables.tcalls
+//@ func (*TablesServer).Delete
+//@   maypanic
+//@   results resp, err
+//@   requires t != nil && t.Tables != nil && req != nil
+//@   ensures [C16.tables.delete.empty] len(req.Name) == 0 ==> err != nil && codeOf(err) == cInvalidArgument && t.Tables.tcalls == old(t.Tables.tcalls)
+//@   before regattaserver.TableService.DeleteTable assert [C14.api.delete] name == req.Name
+//@   modifies t.Tables.tcalls
+//@ func (*ReadonlyTablesServer).Create
+//@   results resp, err
+//@   ensures [C16.follower.create+C17] err != nil && codeOf(err) == cUnimplemented
+//@   modifies nothing
+//@ func (*ReadonlyTablesServer).Delete
+//@   results resp, err
+//@   ensures [C16.follower.delete+C17] err != nil && codeOf(err) == cUnimplemented
+//@   modifies nothing
+// List: one entry per catalogue record - no slot of the answer is left empty (the sort that follows
+// dereferences every entry; there is no recovery interceptor)
+//@ import slices "slices"
+//@ func slices.SortFunc[[]*regattapb.TableInfo,*regattapb.TableInfo]
+//@   assumed
+//@   params x, cmp
+//@   modifies elems(x)
+//@ func (*TablesServer).List
+//@   maypanic
+//@   results resp, err
+//@   requires t != nil && t.Tables != nil
+//@   before slices.SortFunc[[]*regattapb.TableInfo,*regattapb.TableInfo] assert [C16.tables.list.filled+C14] forall j int :: 0 <= j && j < len(x) ==> x[j] != nil
+//@   modifies nothing
+//@   loop 0 invariant -1 <= rangeindex && rangeindex < len(ts) && resp != nil && fresh(resp) && fresh(resp.Tables) && len(resp.Tables) == len(ts) && forall j int :: 0 <= j && j <= rangeindex ==> resp.Tables[j] != nil
